@@ -234,7 +234,15 @@ func (h *hideConn) Write(b []byte) (int, error) {
 }
 
 func tcpRequest(proxyAddr, endpoint string, ext string) psim.Reply {
+	return tcpRequestHdr(proxyAddr, endpoint, ext, nil)
+}
+
+// tcpRequestHdr: extra handshake headers (Host, x-piko-endpoint) that name another endpoint than the path.
+func tcpRequestHdr(proxyAddr, endpoint string, ext string, extra map[string]string) psim.Reply {
 	hdr := http.Header{}
+	for k, v := range extra {
+		hdr.Set(k, v)
+	}
 	d := websocket.Dialer{HandshakeTimeout: 3 * time.Second}
 	switch ext {
 	case "forged":
@@ -479,7 +487,7 @@ func runC01Placement(c *cluster, placed []Placed, emit emitter, rng *rand.Rand) 
 	}
 	for _, entry := range c.ids() {
 		for _, target := range c01endpoints {
-			for _, mode := range []string{"host", "header", "header-hide", "tcp"} {
+			for _, mode := range []string{"host", "header", "header-hide", "tcp", "tcp-conflict"} {
 				if mode == "host" && strings.Contains(target, ".") {
 					continue // a label cannot contain a dot
 				}
@@ -487,6 +495,14 @@ func runC01Placement(c *cluster, placed []Placed, emit emitter, rng *rand.Rand) 
 				switch mode {
 				case "tcp":
 					rep = tcpRequest(c.byID[entry].ProxyAddr(), target, "none")
+				case "tcp-conflict":
+					// the path names the endpoint on the TCP route, whatever Host and header say
+					other := "e1"
+					if target == "e1" {
+						other = "e"
+					}
+					rep = tcpRequestHdr(c.byID[entry].ProxyAddr(), target, "none",
+						map[string]string{"Host": other + ".piko.example.com", "x-piko-endpoint": other})
 				default:
 					// a conflicting Host label when the header names the endpoint
 					hdr := map[string]string{}
